@@ -89,6 +89,58 @@ namespace net
     bool checked = false;
   };
 
+  // A client theory in the executor's role: it only exists to take over the conflict explanation another theory leaves behind
+  // when one of its public bound-setting calls fails (theory::swap_conflict is protected).
+  // It can also play the executor's whole protocol: bounds registered for a literal are set (with that literal as the reason)
+  // whenever the literal becomes true, and a failing call hands the explanation to the sat core as this theory's conflict.
+  struct ProbeTheory : public smt::theory
+  {
+    explicit ProbeTheory(sat_core &s) : smt::theory(s) {}
+    std::vector<lit> take(smt::theory &from)
+    {
+      swap_conflict(from);
+      std::vector<lit> c = cnfl;
+      cnfl.clear();
+      return c;
+    }
+    struct Bound
+    {
+      lit p;
+      smt::var v;
+      bool lower;
+      inf_rational val;
+    };
+    std::vector<Bound> bounds;
+    lra_theory *lra = nullptr;
+    long fired = 0, conflicts = 0;
+    void watch(const lit &p, smt::var v, bool lower, const inf_rational &val)
+    {
+      bounds.push_back({p, v, lower, val});
+      bind(variable(p));
+    }
+
+  private:
+    bool propagate(const lit &q) override
+    {
+      for (auto &b : bounds)
+        if (variable(b.p) == variable(q) && sat->value(b.p) == True)
+        {
+          ++fired;
+          bool ok = b.lower ? lra->set_lb(b.v, b.val, b.p) : lra->set_ub(b.v, b.val, b.p);
+          if (!ok)
+          {
+            ++conflicts;
+            swap_conflict(*lra);
+            return false;
+          }
+        }
+      return true;
+    }
+    bool check() override { return true; }
+    void push() override {}
+    void pop() override {}
+  };
+
   struct Net
   {
     sat_core sat;
@@ -96,6 +148,7 @@ namespace net
     ov_theory ov;
     idl_theory idl;
     rdl_theory rdl;
+    ProbeTheory probe;
 
     z3::context z;
     z3::solver zs;                    // holds Phi_model
@@ -138,7 +191,7 @@ namespace net
     long n_conflicts = 0, n_learnt_ge2 = 0, n_theory_lemmas = 0, n_theory_conflicts = 0, n_next = 0, n_backjump2 = 0, n_pops = 0, n_z3 = 0;
     bool check_lemmas = true;
 
-    Net() : lra(sat), ov(sat), idl(sat), rdl(sat), zs(z)
+    Net() : lra(sat), ov(sat), idl(sat), rdl(sat), probe(sat), zs(z)
     {
       known[FALSE_var] = true;
       z3::params p(z);
